@@ -189,6 +189,7 @@ type Parser struct {
 	prefix    string
 	currFunc  string
 	usedFuncs map[string][]string // Stores which function (key) calls which functions (values).
+	importing []string            // Stores the files that are currently being imported (to detect import cycles).
 }
 
 func New() Parser {
@@ -691,7 +692,12 @@ func (p *Parser) evaluateImports(ctx context) ([]Statement, error) {
 				// If it's not a standard library path, an alias must be provided.
 				return nil, fmt.Errorf(`an alias must be provided for the local import "%s" in "%s"`, path, p.path)
 			}
+			// Make sure files don't import each other endlessly.
+			if slices.Contains(append(p.importing, p.path), absPath) {
+				return nil, fmt.Errorf(`import cycle: "%s" is imported again in "%s"`, absPath, p.path)
+			}
 			importParser := New()
+			importParser.importing = append(slices.Clone(p.importing), p.path)
 			importedProg, err := importParser.parse(absPath, true)
 
 			if err != nil {
